@@ -56,6 +56,8 @@ func runC20(p *Prog, r *Report) {
 	ruleTabOnly(p, r, tabOnlyCfg{pkg: "unicodedata", fn: "Decompose", table: []string{"decompose1", "decompose2"}, params: true, zero: true, viaFuncs: []fnRef{{"unicodedata", "", "decomposeHangul"}}})
 	ruleTabOnly(p, r, tabOnlyCfg{pkg: "unicodedata", fn: "Compose", table: []string{"compose"}, viaFuncs: []fnRef{{"unicodedata", "", "composeHangul"}}})
 	ruleAppendOnly(p, r, "language", "NewLanguage", "canonMap")
+	r.Explain = append(r.Explain, "R-BISECT: every sort.Search whose predicate indexes a package-level table literal requires that table to be sorted by the compared key.")
+	ruleBisect(p, r, le)
 	r.Assumptions = append(r.Assumptions,
 		"unicode.Is, sort.Search and the three-line bisections LookupScript/binarySearchLang are trusted to implement bisection over a sorted table",
 		"the Hangul arithmetic of Compose/Decompose is not analysed",
